@@ -298,14 +298,17 @@ PROPS = {
     "C16": dict(
         pkg="c16", level="exploration", needs_binary=True,
         tests=[T("TestC16", Q(500, timeout=300, shrinktime="20s"), Q(2500, timeout=1500, shards=8, shrinktime="60s"))],
+        fuzz=[dict(target="FuzzC16", seconds=240)],
         rule="A real `regatta leader` process and a real `regatta follower` process replicating from it (production wiring, loopback gRPC, data in a scratch dir) serve every case. A case is 3-25 requests "
              "(Range, IterateRange, Put, DeleteRange, Txn, Tables Create/Delete/List) to the leader or the follower, sent as exact wire bytes through a pass-through codec. Each request is built valid and then 0, 1 or several documented defects are injected: "
              "missing table, unknown table, missing key, key of 1025+ bytes, value of 2 MiB+1.., negative limit, keys_only+count_only, a revision filter, missing table name, table mutation on the follower, and - nested in both branches of a txn - a put with missing key / "
              "over-long key / over-sized value; plus 'hostile' shapes (empty oneof, nested reads with odd options, unknown enum numbers, random bytes) for which only liveness is asserted. Keys and values exactly AT the limits are generated as valid. "
              "Oracle: an invalid request gets a non-OK status - exactly the documented code when it carries exactly one defect - and a full read of every table before == after; valid requests behave like the model (responses and content); after every request both "
-             "processes are still running (Wait has not returned). Non-trivial iff a request with exactly one defect nested in a txn branch, or a defective request sent to the follower, occurred. Distinct = sha256 of case JSON.",
+             "processes are still running (Wait has not returned). Non-trivial iff a request with exactly one defect nested in a txn branch, or a defective request sent to the follower, occurred. Distinct = sha256 of case JSON. "
+             "Thorough adds FuzzC16 (native, coverage-guided, in-process): arbitrary bytes -> registered codec -> request of the KV / Tables API -> the real KVServer / TablesServer handlers in front of a real in-process storage.Engine (raft apply loop included); "
+             "no panic anywhere (a panic on the apply goroutine kills the fuzz worker and is reported with the input), requests violating a documented rule are refused without effect, the engine keeps serving.",
         assumptions=["the status-code table is the one in the property statement", "process death is observed through os/exec Wait (timing-free)"],
-        technique="grammar-based request generation with defect injection against the real server binaries, model-based state comparison",
+        technique="grammar-based request generation with defect injection against the real server binaries, model-based state comparison; native coverage-guided fuzzing of the handlers in-process (thorough)",
         level_text="Randomised exploration of request shapes against the production binaries with an exact refusal/no-effect oracle.",
         level_note="Trusted: model; gRPC client library.",
     ),
